@@ -285,4 +285,18 @@ def discharge(ctx, site):
                             return True, f"D8: the assertion can only fail under `{show(f[2])} < 0`, which contradicts the dominating `{show(g[2])} {g[1]} {fold(g[3])}`"
                         if canon(strip_casts(g[3])) == x and fold(g[2]) is not None and ((g[1] == "Le" and fold(g[2]) >= c) or (g[1] == "Lt" and fold(g[2]) >= c - 1)):
                             return True, "D8: the assertion's failing edge contradicts a dominating comparison"
+    if kind.startswith(("explicit", "call:panic")):
+        # D9: `assert!((x & M) < C)` with M < C (or `<= C` with M <= C): a masked value cannot reach the bound
+        for f in facts:
+            if f[0] == "cmp" and f[1] in ("Ge", "Gt") and fold(f[3]) is not None:
+                a = strip_casts(f[2])
+                if isinstance(a, tuple) and a[0] == "var":
+                    ds = list(ctx.prov.expand(a))
+                    a = strip_casts(ds[0]) if len(ds) == 1 else a
+                if isinstance(a, tuple) and a[0] == "bin" and a[1] in ("BitAnd", "Rem"):
+                    m = fold(a[3]) if fold(a[3]) is not None else fold(a[2])
+                    if m is not None:
+                        top = m if a[1] == "BitAnd" else m - 1
+                        if (f[1] == "Ge" and top < fold(f[3])) or (f[1] == "Gt" and top <= fold(f[3])):
+                            return True, f"D9: the assertion can only fail under `{show(f[2])} {f[1]} {fold(f[3])}`, but a value masked with {m} is at most {top}"
     return False, f"{kind}: no discharge rule"
